@@ -271,6 +271,28 @@ def run(world, rep, tier, only=None):
                "new->%s = src->%s: %d such store(s); stores of anything else into it: %s" %
                (fld, fld, len(same), [(n.line, n.text()[:30]) for n in other]))
 
+    # ------------------------------------------------------------------ C16.g bulk get answers for the whole range in both backends
+    # the caller's buffer is an output: the tree backend, which only writes the runs it finds, clears it first - on every
+    # path, the empty tree included (the bit array copies its bytes)
+    rg = prog.fn("rb_get_bmap_range", RB)
+    outp = rg.params[3] if len(rg.params) > 3 else None
+    clr = [c for c in calls_to(rg, "memset") if T.path(arg(c, 0)) == outp and T.const(arg(c, 1)) == 0]
+    rets = [n for n in rg.events("R")]
+    rep.floor("C16.g returns of rb_get_bmap_range", len(rets), 1)
+    for i, r_ in enumerate(sorted(rets, key=lambda n: n.line)):
+        rep.ob("C16.g", site(rg, "output cleared before return#%d" % i), bool(clr) and rg.dominated_by(r_, clr),
+               "memset(out, 0, …) dominates the return at line %d" % r_.line)
+    # ------------------------------------------------------------------ C16.h compare looks at every cluster
+    # start/end of a block bitmap count clusters, ext2fs_test_generic_bmap() takes block numbers: the walk has to
+    # convert, or only the first 1/ratio of a bigalloc bitmap is compared
+    cg = gfns.get("ext2fs_compare_generic_bmap")
+    tests_ = calls_to(cg, "ext2fs_test_generic_bmap")
+    rep.floor("C16.h membership tests in ext2fs_compare_generic_bmap", len(tests_), 2)
+    for i, c in enumerate(tests_):
+        rep.ob("C16.h", site(cg, "cluster index converted to a block number#%d" % i),
+               depends_on(cg, arg(c, 1), lambda y: isinstance(y, dict) and y.get("k") == "m" and y.get("f") == "cluster_bits"),
+               "argument `%s` of ext2fs_test_generic_bmap() involves ->cluster_bits" % T.pp(arg(c, 1))[:40])
+
     # ------------------------------------------------------------------ C16.d set_range assigns in both backends
     # the bit array copies the bytes over the range; the tree must drop what the range held before inserting
     ba = prog.fn("ba_set_bmap_range", "lib/ext2fs/blkmap64_ba.c")
